@@ -76,7 +76,7 @@ def model_check(chk, parts, ctxs, invs, consts_text, esclen=2, timeout=3000, qui
         cf = os.path.join(sd, "cases.json")
         try:
             res = tlc.check_model(module, module + "_run.cfg", extra_files={module + "_run.cfg": cfg}, workers=1,
-                                  env={"CASES_FILE": cf}, timeout=timeout, coverage=True)
+                                  env={"CASES_FILE": cf}, timeout=timeout, coverage=False)
             data = None
             if os.path.exists(cf):
                 with open(cf) as fp:
@@ -233,16 +233,16 @@ def main(chk, replay=None):
         _c, contexts, tot = model_check(chk, [["void"]], t["ctxs"], INVS17, consts_text)
     else:
         cases, contexts, tot = model_check(chk, t["parts"], t["ctxs"], INVS17, consts_text)
-    need = ["CmdStartScope", "CmdDefine", "CmdCondition", "CmdRepeat", "CmdContent", "CmdAttributes", "CmdOmitTag", "CmdStartTag",
-            "CmdOutput", "CmdUseMacro", "CmdDefineSlot", "CmdEndTagEndScope", "SubReturn", "EndTagResume"]
-    idle = [a for a in need if not tot["actions"].get(a)]
-    if idle and not replay and not tot["inv"]:
-        raise core.MachineryError("C17: model actions never taken (vacuous model): %s" % idle)
     random.Random(chk.seed).shuffle(cases)
     runs = run_cases(cases, contexts, consts)
     nev = sum(len(r["events"]) for r in runs)
     if runs and nev == 0:
         raise core.MachineryError("C17: the tracing interpreter logged no opcode at all: interpreter= binding not exercised")
+    # every opcode handler must have been exercised (the trace spec replays each event as the TALVM action of that opcode)
+    need = [consts[n] for n in c17_tal.OPNAMES if n not in ("TAL_REPLACE", "TAL_NOOP", "METAL_FILL_SLOT", "METAL_DEFINE_MACRO")] + [0]
+    seen_ops = {e[1] for r in runs for e in r["events"]}
+    if not replay and [o for o in need if o not in seen_ops]:
+        raise core.MachineryError("C17: opcode handlers never exercised: %s" % [o for o in need if o not in seen_ops])
     tv = validate("TraceC17", "TSpec", runs, contexts, consts_text)
     report(chk, runs, tv)
     nontrivial = len({r["text"] + "|" + r["init"]["ctx"]["id"] for r in runs
@@ -260,7 +260,7 @@ def main(chk, replay=None):
                     for r in runs[:3]],
         "checker_cmd": tot["cmd"] + " ; " + tv["cmd"],
         "opcode_events": nev, "opcodes_seen": opcodes, "trace_states": tv["states"],
-        "model_actions": tot["actions"], "constants_bound": bound, "constants": {k: v for k, v in consts.items() if k != "VoidTags"},
+        "constants_bound": bound, "constants": {k: v for k, v in consts.items() if k != "VoidTags"},
         "families": sorted({c["fam"] for c in cases}),
         "model_wall_s": tot["wall"], "trace_wall_s": tv["wall_s"],
         "bindings": ["B1 opcode numbers + HTML_FORBIDDEN_ENDTAG imported into the TLC cfg", "B2 every TLC case compiled and expanded by the real simpleTAL",
